@@ -75,6 +75,24 @@ lemma L_pos_asymmetric [C16]: forall a, b token.Position :: !(posLess(a, b) && p
 lemma L_pos_transitive [C16]: forall a, b, c token.Position :: posLess(a, b) && posLess(b, c) ==> posLess(a, c)
 lemma L_pos_total [C16]: forall a, b token.Position :: a != b ==> posLess(a, b) || posLess(b, a)
 
+// ---- C16: the arguments of a call / Kombination literal are kept in a map; whoever walks them must not depend on
+// the map's iteration order. SortedArgNames fixes the order: by position in the source, names break ties ----
+spec argBefore(pa token.Position, na string, pb token.Position, nb string) bool :=
+  (pa != pb && posLess(pa, pb)) || (pa == pb && na < nb)
+// the comparator handed to sort.Slice
+func SortedArgNames$1 [C16]
+  requires 0 <= i && i < len(names) && 0 <= j && j < len(names)
+  ensures result == argBefore(args[names[i]].GetRange().Start, names[i], args[names[j]].GetRange().Start, names[j])
+// it is a strict order that is total on distinct names: the sorted sequence is unique
+lemma L_arg_irreflexive [C16]: forall p token.Position, n string :: !argBefore(p, n, p, n)
+lemma L_arg_asymmetric [C16]: forall p, q token.Position, n, m string :: !(argBefore(p, n, q, m) && argBefore(q, m, p, n))
+lemma L_arg_transitive [C16]: forall p, q, r token.Position, n, m, k string ::
+  argBefore(p, n, q, m) && argBefore(q, m, r, k) ==> argBefore(p, n, r, k)
+lemma L_arg_total [C16]: forall p, q token.Position, n, m string :: n != m ==> argBefore(p, n, q, m) || argBefore(q, m, p, n)
+// the generic AST walker hands the children of a call to the visitor in that order
+func (*helperVisitor).sortArgs [C16]
+  ordered append
+
 // ---- C10 / C16: every transitively imported module is handed to the callback once, dependencies first ----
 // The order does not depend on map iteration: the walk follows the import lists (slices), the map is only the visited set.
 spec importsVisited(visited map[*Module]struct{}, module *Module) bool :=
